@@ -274,7 +274,7 @@ def est_worker(case):
 
 
 # -- Prolongate -------------------------------------------------------------------------------------------
-def prolongate_run(eng, gridname, hist_coarse, hist_fine):
+def prolongate_run(eng, gridname, hist_coarse, hist_fine, hist_after=1):
     M = c02.load_mesh_module()
     M.np = models.NpProxy(dict(zeros=models.zeros_model))
     mesh = meshsym.build_mesh(M, eng, gridname)
@@ -289,6 +289,12 @@ def prolongate_run(eng, gridname, hist_coarse, hist_fine):
         al = [(i, op) for i in range(len(leaves)) for op in (0, 1, 2)]
         c02.apply_action(mesh, leaves, al[eng.choice(len(al))])
     fine = list(mesh.leaf_elements)
+    # the mesh may be refined further before two *stored* element lists are related (post-processing of an adaptive
+    # history): Prolongate must not depend on the current state of the tree
+    for step in range(hist_after):
+        leaves = list(mesh.leaf_elements)
+        al = [(i, op) for i in range(len(leaves)) for op in (0, 1)]
+        c02.apply_action(mesh, leaves, al[eng.choice(len(al))])
     out = M.Prolongate(vec, coarse, fine)
     ref, lmap = meshsym.ref_of(mesh)
     bad = []
@@ -309,12 +315,13 @@ def contains(o, r):
 
 
 def prol_worker(case):
-    gridname, hc, hf, prefix = case
+    gridname, hc, hf, prefix = case[:4]
+    ha = case[4] if len(case) > 4 else 1
     eng = Engine(timeout_ms=30000)
     res = dict(stats=None, violations=[], inconclusive=[], samples=[], functions=['src/mesh.py:Prolongate'],
                evaluations=0, nontrivial=0)
     try:
-        for pr in eng.explore(lambda: prolongate_run(eng, gridname, hc, hf), prefix=list(prefix) if prefix else None):
+        for pr in eng.explore(lambda: prolongate_run(eng, gridname, hc, hf, ha), prefix=list(prefix) if prefix else None):
             res['evaluations'] += 1
             if pr.status == 'exc':
                 bad = ['prolongate: exception %r at %s' % (pr.exc, pr.tb[-1])]
@@ -322,7 +329,7 @@ def prol_worker(case):
                 bad = pr.value
                 res['nontrivial'] += 1
             for b in bad[:1]:
-                rp = dict(kind='prolongate', grid=gridname, hc=hc, hf=hf, choices=pr.choices)
+                rp = dict(kind='prolongate', grid=gridname, hc=hc, hf=hf, ha=ha, choices=pr.choices)
                 res['violations'].append(dict(signature='prolongate', what='%s [grid %s, choices %s]' % (b, gridname,
                                                                                                       pr.choices),
                                               replay=rp, reproduced=replay(rp)))
@@ -360,6 +367,10 @@ def replay(rp):
                     al = [(i, op) for i in range(len(leaves)) for op in (0, 1, 2)]
                     c02.apply_action(mesh, leaves, al[ch.pop(0)] if ch else al[0])
                 fine = list(mesh.leaf_elements)
+                for step in range(rp.get('ha', 0)):
+                    leaves = list(mesh.leaf_elements)
+                    al = [(i, op) for i in range(len(leaves)) for op in (0, 1)]
+                    c02.apply_action(mesh, leaves, al[ch.pop(0)] if ch else al[0])
                 out = M.Prolongate(vec, coarse, fine)
                 for j, f in enumerate(fine):
                     anc = [i for i, c in enumerate(coarse)
@@ -467,13 +478,19 @@ def run(out):
         report.merge_worker(out, r, part='estimators %s' % c[0])
     pc = []
     for g in (['2x1g', '1x1g'] if quick else ['2x1g', '1x1g', '3x1g', '2x2o']):
-        pc.append((g, 1, 2 if quick else 3, ()))
-        pc.append((g, 0, 2 if quick else 3, ()))
+        if quick:
+            pc.append((g, 1, 1, (), 1))
+            pc.append((g, 0, 2, (), 0))
+            pc.append((g, 0, 1, (), 1))
+        else:
+            pc.append((g, 1, 2, (), 1))
+            pc.append((g, 0, 3, (), 0))
+            pc.append((g, 1, 1, (), 2))
     for c, r in zip(pc, report.pmap('checks.c20', 'prol_worker', pc)):
         report.merge_worker(out, r, part='Prolongate %s' % c[0])
     out.bounds = dict(grids=grids, history_before_estimating='<= 1 bisection', coarse_elements='<= 5 (<= 20 fine unknowns)',
                       data='Phi symbolic; B, g, m0 uninterpreted functions of element geometry; with g only, M0 only, both',
-                      prolongate='coarse history <= 1, fine history <= %d' % (2 if quick else 3))
+                      prolongate='coarse history <= 1, fine history <= %d, then <= %d further bisections before Prolongate is called on the two stored lists' % (2 if quick else 3, 1 if quick else 2))
     out.outside = ['process-pool path of bilform_matrix / linform_vector', 'positivity of psi^T S psi (C13)',
                    'larger meshes']
     out.assumptions = ['np.linalg.solve replaced by its defining axiom (fresh x with A x = b)',
